@@ -10,7 +10,8 @@ RULE = ("each case runs a structure (repository proteins incl. 3SGB with its ins
         "numbers tie. Groups are matched by atom position; pKa, desolvation terms, counts, buried and "
         "determinants (by partner) must be equal (1e-7). Non-trivial: >= 2 chains or a shift that "
         "crosses zero or an insertion code present, and >= 2 titratable groups; distinct = distinct "
-        "(structure digest, relabelling).")
+        "(structure digest, relabelling)."
+        " 20 % of the cases select one chain with -c in both runs (by its old and its new name).")
 ASSUMPTIONS = ["chain maps are order-preserving (the statement's quantifier), so the internal atom sort keeps its order"]
 TIMEOUT = {"quick": 1800, "thorough": 10800}
 KINDS = ("chain-rename", "shift", "icode-renumber")
